@@ -14,7 +14,7 @@
 EXTENDS Integers, Sequences, FiniteSets, TLC
 P == INSTANCE PipeProps
 
-CONSTANTS Cfgs, QStep
+CONSTANTS Cfgs, QStep, KeepSched
 VARIABLES cfg, inb, inClosed, egb, egClosed, mq, pump, env, obs, sched
 vars == <<cfg, inb, inClosed, egb, egClosed, mq, pump, env, obs, sched>>
 View == <<cfg, inb, inClosed, egb, egClosed, mq, pump, env, obs>>
@@ -78,7 +78,7 @@ Lib == (Pump \/ SendBuf \/ RecvBuf \/ RecvClosed) /\ UNCHANGED <<cfg, sched>>
 
 (* ---- environment.  Once it has cancelled the context the send side is the library's (it closes it): no send, no close *)
 EnvOK == ~QStep \/ ~ENABLED Lib
-Log(c) == sched' = Append(sched, c)
+Log(c) == sched' = IF KeepSched THEN Append(sched, c) ELSE sched     \* the history variable is switched off for liveness checking
 EnvSend == EnvOK /\ ~env.spend /\ ~env.closedIn /\ ~env.cancelled /\ env.sidx <= Len(Input) /\ env' = [env EXCEPT !.spend = TRUE]
            /\ Log(Cmd("send", 0, "", 0)) /\ UNCHANGED <<cfg, inb, inClosed, egb, egClosed, mq, pump, obs>>
 EnvClose == EnvOK /\ ~env.spend /\ ~env.closedIn /\ ~env.cancelled /\ env' = [env EXCEPT !.closedIn = TRUE] /\ inClosed' = TRUE
@@ -91,6 +91,10 @@ EnvCancel == EnvOK /\ ~env.cancelled /\ ~env.spend /\ env' = [env EXCEPT !.cance
 Env == EnvSend \/ EnvClose \/ EnvRecv \/ EnvCancel
 Next == Lib \/ Env
 Spec == Init /\ [][Next]_vars
+\* liveness: with a receiver that keeps receiving, a cancelled (or sender-closed) channel pair is eventually closed on the
+\* receive side, everything sent before having been delivered (LosslessAfterCancel / Complete say what was delivered)
+FairSpec == Spec /\ WF_vars(Lib) /\ WF_vars(EnvRecv)
+EventuallyClosed == ((env.cancelled \/ env.closedIn) /\ ~env.spend) ~> obs.seen
 
 (* ---- the observation record of PipeProps *)
 Obs == [sent |-> <<obs.sent>>, pend |-> <<IF env.spend THEN <<Input[env.sidx]>> ELSE <<>> >>, closed |-> <<env.closedIn>>,
